@@ -226,6 +226,41 @@ Proof.
   apply earlier_refl.
 Qed.
 
+(* settings persist until changed: a SETTINGS frame that does not mention a limit leaves what
+   the client holds for it alone (MAX_CONCURRENT_STREAMS: after the first frame; the first frame
+   without it replaces the transport's own cap of 100 by 1000) *)
+Theorem C06_limits_persist : forall c kvs,
+  let c' := fst (conn_step c (ESettings kvs)) in
+  (has_setting S_MAX_FRAME_SIZE kvs = false -> cc_max_frame c' = cc_max_frame c) /\
+  (has_setting S_INITIAL_WINDOW_SIZE kvs = false -> cc_init_win c' = cc_init_win c) /\
+  (has_setting S_MAX_CONCURRENT_STREAMS kvs = false -> cc_seen_settings c = true -> cc_max_streams c' = cc_max_streams c) /\
+  (has_setting S_MAX_CONCURRENT_STREAMS kvs = false -> cc_seen_settings c = false -> settings_valid kvs = true ->
+     cc_max_streams c' = c_defaultMaxConcurrentStreams).
+Proof. exact limits_persist. Qed.
+Print Assumptions C06_limits_persist.
+
+(* the two behaviours a client must NOT show are rejected by the monitor: (a) a second stream
+   after a later SETTINGS frame that does not repeat MAX_CONCURRENT_STREAMS = 1; (b) a DATA
+   frame cut by the MAX_FRAME_SIZE in force when the upload began (65536) after a lower one
+   (16384) was acknowledged - while the machine, fed the same events, waits resp. cuts at 16384 *)
+Example C06_forbidden_traces_rejected :
+  accepts (mon_init 1000 1000)
+    [P (FSettings [(3, 1)]); C FSettingsAck; C (FHeaders 1 10 true false);
+     P (FSettings [(4, 30000)]); C FSettingsAck; C (FHeaders 3 10 true true)] = false /\
+  accepts (mon_init 1000 1000)
+    [P (FSettings [(4, 1000000); (5, 65536)]); C FSettingsAck; C (FHeaders 1 10 true false);
+     C (FData 1 65535 false); P (FWindowUpdate 0 1000000);
+     P (FSettings [(5, 16384)]); C FSettingsAck; C (FData 1 65536 false)] = false /\
+  trace_of 0 0 1000 1000
+    [ESettings [(3, 1)]; EOpen 10 false; ESettings [(4, 30000)]; EOpen 10 true;
+     ESettings [(4, 1000000); (5, 65536)]; EWindowUpdate 0 1000000; ESendData 1 65536 false;
+     ESettings [(5, 16384)]; ESendData 1 65536 false] =
+    [P (FSettings [(3, 1)]); C FSettingsAck; C (FHeaders 1 10 true false);
+     P (FSettings [(4, 30000)]); C FSettingsAck;
+     P (FSettings [(4, 1000000); (5, 65536)]); C FSettingsAck; P (FWindowUpdate 0 1000000);
+     C (FData 1 65536 false); P (FSettings [(5, 16384)]); C FSettingsAck; C (FData 1 16384 false)].
+Proof. vm_compute. repeat split. Qed.
+
 (* non-vacuity: a legal configuration (priority fields on HEADERS, Firefox-like PRIORITY frames up
    to stream 13, stream window 1000) and an interleaving with a 40000-byte header block, the
    peer lowering MAX_CONCURRENT_STREAMS to 1 and INITIAL_WINDOW_SIZE to 100 and then 0 (window
